@@ -898,6 +898,56 @@ def o_icdf_nd(spec, dim, seed):
     return None
 
 
+def o_icdf_special(seed):
+    """marginal_icdf where it is (nearly) exact: (A) an UNCONDITIONAL variable at a position other than the first, in 2-D
+    [None, None] and 3-D [None, 0, None], [None, None, 1] models with a different family per variable -- the marginal is that
+    variable's own distribution, cdf_dim(marginal_icdf(p, dim)) = p to 1e-9; (B) a variable DECLARED conditional all of whose
+    parameters are fixed ("parameters": {}) -- its marginal is the template with the fixed values, cdf(marginal_icdf(p)) = p within
+    the DKW band of the Monte-Carlo sample (1e5 rows) at 1e-12"""
+    import virocon as v
+    r = np.random.default_rng([seed, 61])
+    ps = [0.001, 0.1, 0.5, 0.9, 0.999]
+
+    def lin(x, a=float(r.uniform(0.5, 1.5)), b=float(r.uniform(0.05, 0.3))):
+        return a + b * x
+    def mk(kind):
+        if kind == "W":
+            return v.WeibullDistribution(alpha=float(r.uniform(1, 3)), beta=float(r.uniform(1.2, 2.5)), gamma=float(r.uniform(0, 1)))
+        if kind == "LN":
+            return v.LogNormalDistribution(mu=float(r.uniform(0.2, 1.5)), sigma=float(r.uniform(0.2, 0.6)))
+        if kind == "N":
+            return v.NormalDistribution(mu=float(r.uniform(5, 9)), sigma=float(r.uniform(0.5, 2)))
+        return v.ExponentiatedWeibullDistribution(alpha=float(r.uniform(1, 3)), beta=float(r.uniform(1, 2)), delta=float(r.uniform(1, 4)))
+    cond_ln = {"distribution": v.LogNormalDistribution(), "parameters": {"mu": v.DependenceFunction(lin), "sigma": v.DependenceFunction(lin)}}
+    structures = [([None, None], ["W", "N"]), ([None, 0, None], ["W", "c", "EW"]), ([None, None, 1], ["LN", "N", "c"]), ([None, None, None], ["EW", "LN", "W"])]
+    for st, kinds in structures:
+        descs = []
+        for c, k in zip(st, kinds):
+            descs.append(dict(cond_ln, conditional_on=c) if k == "c" else {"distribution": mk(k)})
+        model = v.GlobalHierarchicalModel(descs)
+        for dim, (c, k) in enumerate(zip(st, kinds)):
+            if c is not None:
+                continue
+            xs = np.atleast_1d(np.asarray(model.marginal_icdf(ps, dim), dtype=float))
+            F = np.atleast_1d(np.asarray(descs[dim]["distribution"].cdf(xs), dtype=float))
+            if xs.shape != (len(ps),) or not np.all(np.abs(F - np.array(ps)) <= 1e-9):
+                return ({"clause": "marginal-icdf", "method": "marginal_icdf", "kind": "unconditional", "position": "first" if dim == 0 else "later"},
+                        "model conditional_on=%r (families %r): marginal_icdf(%r, %d) = %r, where the cdf of variable %d -- an unconditional variable, "
+                        "its marginal is its own distribution -- is %r" % (st, kinds, ps, dim, xs.tolist(), dim, F.tolist()))
+    mu, sg = float(r.uniform(0.5, 1.5)), float(r.uniform(0.2, 0.5))
+    model = v.GlobalHierarchicalModel([{"distribution": mk("W")},
+                                       {"distribution": v.LogNormalDistribution(f_mu=mu, f_sigma=sg), "conditional_on": 0, "parameters": {}}])
+    ps2 = [0.1, 0.5, 0.9]
+    xs = np.atleast_1d(np.asarray(model.marginal_icdf(ps2, 1, random_state=int(seed % 2 ** 31)), dtype=float))
+    F = np.atleast_1d(np.asarray(v.LogNormalDistribution(mu=mu, sigma=sg).cdf(xs), dtype=float))
+    eps = math.sqrt(math.log(2 / 1e-12) / (2 * 100000))
+    if xs.shape != (3,) or not np.all(np.abs(F - np.array(ps2)) <= 3 * eps):
+        return ({"clause": "marginal-icdf", "method": "marginal_icdf", "kind": "all-fixed-conditional"},
+                "[Weibull, LogNormal(f_mu=%r, f_sigma=%r) conditional_on 0 with parameters {}]: marginal_icdf(%r, 1, random_state=%d) = %r whose cdf "
+                "under LogNormal(%r, %r) -- the marginal of that variable -- is %r (DKW band %.4f)" % (mu, sg, ps2, seed % 2 ** 31, xs.tolist(), mu, sg, F.tolist(), eps))
+    return None
+
+
 def o_predefined(name, seed, real_seconds=0):
     """a predefined model fitted to a benchmark data set: pdf = product of its own per-dimension densities at the same row,
     >= 0, list / array / integer inputs; (optionally, real nquad inside a time limit) cdf and marginals against 1-D
@@ -997,6 +1047,8 @@ def replay(ctx, rp):
         o = o_icdf_seed(spec, rp["dim"], rp["seed"], rp["ps"], rp["pf"])
     elif kind == "icdf_nd":
         o = o_icdf_nd(spec, rp["dim"], rp["seed"])
+    elif kind == "icdf_special":
+        o = o_icdf_special(rp["seed"])
     elif kind == "predefined":
         o = o_predefined(rp["name"], rp["seed"], rp.get("real_seconds", 0))
     elif kind == "integrals_2d":
@@ -1264,6 +1316,10 @@ def run(ctx):
         nicdf += 2
         report(o_icdf_seed(sp, dim, seed, ps_, pf_), {"oracle": "icdf_seed", "spec": sp, "dim": dim, "seed": seed, "ps": list(ps_), "pf": pf_})
         report(o_icdf_nd(sp, dim, seed), {"oracle": "icdf_nd", "spec": sp, "dim": dim, "seed": seed})
+    for _k in range(ctx.n(3, 20)):     # unconditional variables at later positions; all-fixed conditional variables
+        seed = rng.randrange(2 ** 31)
+        nicdf += 1
+        report(o_icdf_special(seed), {"oracle": "icdf_special", "seed": seed})
     marks.append(("icdf", _t.time()))
     # (2g) every predefined model, fitted to a benchmark data set
     for name in M.PREDEFINED:
